@@ -23,6 +23,10 @@ pub(crate) struct RefEntry<'a> {
     pub nodes: &'a [Node],
     pub upgrade: Option<(u64, u64, u64, &'a [u8])>, // fork, ancestors, length, signature
     pub bitfield: Option<(bool, u64, u64)>,          // drop, start, length
+    /// == bitfield.is_some(), kept separately: `Option<(bool, ..)>` uses the bool's niche as its
+    /// discriminant, so with a symbolic `drop` CBMC cannot fold `is_some()` and the flags byte (and
+    /// with it every decoder branch) would become symbolic
+    pub bf_present: bool,
 }
 
 pub(crate) fn ref_entry<const C: usize>(w: &mut W<C>, e: &RefEntry<'_>) {
@@ -33,7 +37,7 @@ pub(crate) fn ref_entry<const C: usize>(w: &mut W<C>, e: &RefEntry<'_>) {
     if e.upgrade.is_some() {
         flags |= 4;
     }
-    if e.bitfield.is_some() {
+    if e.bf_present {
         flags |= 8;
     }
     w.u8(flags);
@@ -51,7 +55,8 @@ pub(crate) fn ref_entry<const C: usize>(w: &mut W<C>, e: &RefEntry<'_>) {
         w.uint(len);
         w.bytes(sig);
     }
-    if let Some((drop, start, len)) = e.bitfield {
+    if e.bf_present {
+        let (drop, start, len) = e.bitfield.unwrap();
         w.u8(if drop { 1 } else { 0 });
         w.uint(start);
         w.uint(len);
@@ -111,17 +116,62 @@ fn fw_node(index: u64, length: u64) -> Node {
 
 // -------------------------------------------------------------------------- C01/C06 entry codec
 
-/// clear entry (bitfield only): every drop/start/length.
+/// clear entry (bitfield only), encode side: every drop/start/length (full u64 range).
 #[kani::proof]
 #[kani::stub(std::fmt::format, stub_format)]
 #[kani::stub(std::string::String::from_utf8, stub_from_utf8)]
-fn c01_entry_clear() {
+fn c01_entry_clear_encode() {
     let bf = (kani::any(), kani::any(), kani::any());
     let e = mk_entry(vec![], None, Some(bf));
     let mut r = W::<24>::new();
-    ref_entry(&mut r, &RefEntry { nodes: &[], upgrade: None, bitfield: Some(bf) });
+    ref_entry(&mut r, &RefEntry { nodes: &[], upgrade: None, bf_present: true, bitfield: Some(bf) });
+    let n = e.encoded_size().unwrap();
+    assert!(n == r.pos);
+    let mut buf = [0u8; 24];
+    let left = e.encode(&mut buf).unwrap().len();
+    assert!(left == 24 - n);
+    let j: usize = kani::any();
+    kani::assume(j < 24);
+    assert!(buf[j] == r.buf[j]);
+    kani::cover!(true, "reached end");
+}
+
+/// clear entry, full round trip with everything symbolic (drop, start, length full range).
+#[kani::proof]
+#[kani::stub(std::fmt::format, stub_format)]
+#[kani::stub(std::string::String::from_utf8, stub_from_utf8)]
+fn c01_entry_clear_sym() {
+    let bf = (kani::any(), kani::any(), kani::any());
+    let e = mk_entry(vec![], None, Some(bf));
+    let mut r = W::<24>::new();
+    ref_entry(&mut r, &RefEntry { nodes: &[], upgrade: None, bf_present: true, bitfield: Some(bf) });
     check_entry(&e, &r);
 }
+
+/// clear entry, full round trip incl. the replay decode: drop symbolic, start/length on varint
+/// class boundaries (one pair per instance; symbolic widths on the decode side run out of memory).
+fn entry_clear_roundtrip<const START: u64, const LEN: u64>() {
+    let bf = (kani::any(), START, LEN);
+    let e = mk_entry(vec![], None, Some(bf));
+    let mut r = W::<24>::new();
+    ref_entry(&mut r, &RefEntry { nodes: &[], upgrade: None, bf_present: true, bitfield: Some(bf) });
+    check_entry(&e, &r);
+}
+macro_rules! clear_rt {
+    ($name:ident, $s:expr, $l:expr) => {
+        #[kani::proof]
+        #[kani::stub(std::fmt::format, stub_format)]
+        #[kani::stub(std::string::String::from_utf8, stub_from_utf8)]
+        fn $name() {
+            entry_clear_roundtrip::<{ $s }, { $l }>();
+        }
+    };
+}
+clear_rt!(c01_entry_clear_rt_small, 0, 1);
+clear_rt!(c01_entry_clear_rt_fc_fd, 0xfc, 0xfd);
+clear_rt!(c01_entry_clear_rt_16_32, 0xffff, 0x1_0000);
+clear_rt!(c01_entry_clear_rt_32_64, 0xffff_ffff, 0x1_0000_0000);
+clear_rt!(c01_entry_clear_rt_max, u64::MAX, 5);
 
 /// append entry: nodes + upgrade + bitfield (all three sections).
 #[kani::proof]
@@ -134,7 +184,7 @@ fn c01_entry_append() {
     let bf = (false, 2u64, 1u64);
     let e = mk_entry(nodes.clone(), Some(up), Some(bf));
     let mut r = W::<176>::new();
-    ref_entry(&mut r, &RefEntry { nodes: &nodes, upgrade: Some((0, 2, 3, &sig)), bitfield: Some(bf) });
+    ref_entry(&mut r, &RefEntry { nodes: &nodes, upgrade: Some((0, 2, 3, &sig)), bf_present: true, bitfield: Some(bf) });
     check_entry(&e, &r);
 }
 
@@ -147,7 +197,7 @@ fn c01_entry_block_only() {
     let bf = (false, 4u64, 1u64);
     let e = mk_entry(nodes.clone(), None, Some(bf));
     let mut r = W::<96>::new();
-    ref_entry(&mut r, &RefEntry { nodes: &nodes, upgrade: None, bitfield: Some(bf) });
+    ref_entry(&mut r, &RefEntry { nodes: &nodes, upgrade: None, bf_present: true, bitfield: Some(bf) });
     check_entry(&e, &r);
 }
 
@@ -160,7 +210,7 @@ fn c01_entry_upgrade_nodes() {
     let sig: [u8; 64] = kani::any();
     let e = mk_entry(nodes.clone(), Some((1, 0xfd, 0x1_0000, sig)), None);
     let mut r = W::<128>::new();
-    ref_entry(&mut r, &RefEntry { nodes: &nodes, upgrade: Some((1, 0xfd, 0x1_0000, &sig)), bitfield: None });
+    ref_entry(&mut r, &RefEntry { nodes: &nodes, upgrade: Some((1, 0xfd, 0x1_0000, &sig)), bf_present: false, bitfield: None });
     check_entry(&e, &r);
 }
 
@@ -171,7 +221,7 @@ fn c01_entry_upgrade_only() {
     let sig: [u8; 64] = kani::any();
     let e = mk_entry(vec![], Some((0xffff_ffff, 0x1_0000_0000, u64::MAX, sig)), None);
     let mut r = W::<96>::new();
-    ref_entry(&mut r, &RefEntry { nodes: &[], upgrade: Some((0xffff_ffff, 0x1_0000_0000, u64::MAX, &sig)), bitfield: None });
+    ref_entry(&mut r, &RefEntry { nodes: &[], upgrade: Some((0xffff_ffff, 0x1_0000_0000, u64::MAX, &sig)), bf_present: false, bitfield: None });
     check_entry(&e, &r);
 }
 
@@ -185,7 +235,7 @@ fn c01_entry_upgrade_scalars_encode() {
     let (fork, anc, len): (u64, u64, u64) = (kani::any(), kani::any(), kani::any());
     let e = mk_entry(vec![], Some((fork, anc, len, sig)), None);
     let mut r = W::<96>::new();
-    ref_entry(&mut r, &RefEntry { nodes: &[], upgrade: Some((fork, anc, len, &sig)), bitfield: None });
+    ref_entry(&mut r, &RefEntry { nodes: &[], upgrade: Some((fork, anc, len, &sig)), bf_present: false, bitfield: None });
     let n = e.encoded_size().unwrap();
     assert!(n == r.pos);
     let mut buf = [0u8; 96];
@@ -343,7 +393,7 @@ fn c06_leader_entry() {
     let mut buf = [0u8; 32];
     let left = encode_with_leader(&e, partial, bit, &mut buf).unwrap().len();
     let mut r = W::<32>::new();
-    let total = ref_entry_at(&mut r, 0, &RefEntry { nodes: &[], upgrade: None, bitfield: Some(bf) }, partial, bit);
+    let total = ref_entry_at(&mut r, 0, &RefEntry { nodes: &[], upgrade: None, bf_present: true, bitfield: Some(bf) }, partial, bit);
     assert!(left == 32 - total);
     let j: usize = kani::any();
     kani::assume(j < 32);
@@ -482,9 +532,9 @@ fn build_entries<const N: usize>(w: &mut W<N>, specs: &[EntrySpec], sizes: &mut 
     while i < specs.len() {
         let sz = if specs[i].kind == 0 {
             let (nodes, up, bf) = sample_append();
-            ref_entry_at(w, at, &RefEntry { nodes: &nodes, upgrade: Some((up.0, up.1, up.2, &up.3)), bitfield: Some(bf) }, specs[i].partial, specs[i].bit != current)
+            ref_entry_at(w, at, &RefEntry { nodes: &nodes, upgrade: Some((up.0, up.1, up.2, &up.3)), bf_present: true, bitfield: Some(bf) }, specs[i].partial, specs[i].bit != current)
         } else {
-            ref_entry_at(w, at, &RefEntry { nodes: &[], upgrade: None, bitfield: Some((true, 0, 1)) }, specs[i].partial, specs[i].bit != current)
+            ref_entry_at(w, at, &RefEntry { nodes: &[], upgrade: None, bf_present: true, bitfield: Some((true, 0, 1)) }, specs[i].partial, specs[i].bit != current)
         };
         sizes[i] = sz;
         at += sz;
@@ -660,16 +710,16 @@ torn_header_harness!(c07_torn_header_over_old_k150, 150, true);
 fn torn_entry<const K: usize, const STALE: bool, const N: usize>() {
     let mut w = W::<N>::new();
     ref_header_at(&mut w, 0, &base_header(1), false);
-    let first = ref_entry_at(&mut w, 8192, &RefEntry { nodes: &[], upgrade: None, bitfield: Some((true, 0, 1)) }, false, false);
+    let first = ref_entry_at(&mut w, 8192, &RefEntry { nodes: &[], upgrade: None, bf_present: true, bitfield: Some((true, 0, 1)) }, false, false);
     let at = 8192 + first;
     if STALE {
         // same shape and size as the new entry but different content (other hashes / signature)
         let nodes = vec![cnode(2, 3, 0x55), cnode(1, 7, 0x56)];
-        ref_entry_at(&mut w, at, &RefEntry { nodes: &nodes, upgrade: Some((0, 1, 2, &[0x66u8; 64])), bitfield: Some((false, 1, 9)) }, false, true);
+        ref_entry_at(&mut w, at, &RefEntry { nodes: &nodes, upgrade: Some((0, 1, 2, &[0x66u8; 64])), bf_present: true, bitfield: Some((false, 1, 9)) }, false, true);
     }
     let mut n = W::<256>::new();
     let (nodes, up, bf) = sample_append();
-    let total = ref_entry_at(&mut n, 0, &RefEntry { nodes: &nodes, upgrade: Some((up.0, up.1, up.2, &up.3)), bitfield: Some(bf) }, false, false);
+    let total = ref_entry_at(&mut n, 0, &RefEntry { nodes: &nodes, upgrade: Some((up.0, up.1, up.2, &up.3)), bf_present: true, bitfield: Some(bf) }, false, false);
     assert!(K < total);
     let mut i = 0;
     while i < K {
@@ -779,7 +829,7 @@ fn crash_in_make_read_only<const APPLIED: usize>() {
     let h_cur = base_header(2);
     ref_header_at(&mut w, 4096, &h_old, false);
     ref_header_at(&mut w, 0, &h_cur, false);
-    ref_entry_at(&mut w, 8192, &RefEntry { nodes: &[], upgrade: None, bitfield: Some((true, 0, 1)) }, false, false);
+    ref_entry_at(&mut w, 8192, &RefEntry { nodes: &[], upgrade: None, bf_present: true, bitfield: Some((true, 0, 1)) }, false, false);
     let mut ro = h_cur;
     ro.secret = None;
     if APPLIED >= 1 {
